@@ -234,7 +234,7 @@ def handle (line : String) : String :=
                   match readMany readNatList nc.toNat r4 with
                   | some (tc, _) =>
                     let scope := if hs != 0 then some sc else none
-                    s!"C {showOutcome (cythonPath q m tc scope (af != 0))} ; P {showOutcome (pythonPath q m tc scope (af != 0))}"
+                    s!"C {showOutcome (cythonPathS q m tc scope (af != 0))} ; P {showOutcome (pythonPath q m tc scope (af != 0))}"
                   | none => "error args"
                 | [] => "error args"
               | none => "error args"
